@@ -8,15 +8,28 @@ from sa.engine.loader import Project
 root = sys.argv[1] if len(sys.argv) > 1 else "/repo"
 p = Project(root)
 out = {}
+locs = {}
+shapes = {}
+from sa.engine.alias import binding_shapes
+def names_bound(fn):
+    return sorted({n.id for n in ast.walk(fn) if isinstance(n, ast.Name) and isinstance(n.ctx, (ast.Store, ast.Del))} | {a.arg for a in ast.walk(fn) if isinstance(a, ast.arg)})
 for m in p.by_rel.values():
     quals = []
+    locs[m.rel] = {}
+    shapes[m.rel] = {}
     for st in m.tree.body:
         if isinstance(st, (ast.FunctionDef, ast.AsyncFunctionDef)):
             quals.append(st.name)
+            locs[m.rel][st.name] = names_bound(st)
+            shapes[m.rel][st.name] = binding_shapes(st)
         elif isinstance(st, ast.ClassDef):
-            quals += [f"{st.name}.{s.name}" for s in st.body if isinstance(s, (ast.FunctionDef, ast.AsyncFunctionDef))]
+            for s in st.body:
+                if isinstance(s, (ast.FunctionDef, ast.AsyncFunctionDef)):
+                    quals.append(f"{st.name}.{s.name}")
+                    locs[m.rel][f"{st.name}.{s.name}"] = names_bound(s)
+                    shapes[m.rel][f"{st.name}.{s.name}"] = binding_shapes(s)
     out[m.rel] = sorted(quals)
 head = subprocess.run(["git", "-C", root, "rev-parse", "--short", "HEAD"], capture_output=True, text=True).stdout.strip()
 dst = os.path.join(os.path.dirname(os.path.dirname(os.path.abspath(__file__))), "sa", "inventory.json")
-json.dump({"_comment": "reference inventory of functions per module; see sa/engine/inline.py", "commit": head, "functions": out}, open(dst, "w"), indent=0, sort_keys=True)
+json.dump({"_comment": "reference inventory of functions per module; see sa/engine/inline.py", "commit": head, "functions": out, "locals": locs, "bindings": shapes}, open(dst, "w"), indent=0, sort_keys=True)
 print("modules", len(out), "functions", sum(len(v) for v in out.values()), "at", head)
